@@ -108,4 +108,12 @@ CHECKS = {
           "and every concrete type incl. fallible mapping functions failing at every call position, bounding_rect and extremes."),
     note="Trusted: TLC. Trees of <= 3 members (nesting depth <= 3) over a 20-entry pool; 4 coordinate functions. Exact equality (integer coordinates).",
     technique="TLA+ structural recursion over geometry trees enumerated by TLC; spec->impl replay", design_ref="DESIGN.md 5 C19"),
+ "C13": dict(
+    text=("Gen_Affine.tla: the AffineTransform builder as a TLA+ state machine over integer matrices; TLC checks the algebraic laws "
+          "(compose = then, inverse undoes, origins are fixed points) on every reachable state and every transition becomes an "
+          "implementation test (matrix, constructors, apply, compose_many, inverse / None iff singular, i64, trait forms pure / "
+          "in-place / around point, centre, centroid). Commutation clause: the implementation's own relate / intersects / contains / "
+          "coordinate_position answers, areas and distances must be unchanged / scaled exactly under exact maps."),
+    note="Trusted: TLC. Integer matrices only (quarter turns, 45-degree skews); general float matrices are reached only through these exact ones. Tolerance 1e-12 on trigonometric entries.",
+    technique="TLA+ builder state machine, laws checked by TLC, per-transition replay; commutation by exact maps", design_ref="DESIGN.md 5 C13"),
 }
